@@ -645,9 +645,116 @@ pub fn large_child(tier: Tier, only: Option<u64>) -> i32 {
     0
 }
 
+// ------------------------------------------------------------------------------------------------
+// (e) payload shapes whose encoding has no content between its brackets: whatever the serializer
+// does for them, the frame must still be one whole JSON document and one NUL
+
+#[derive(Debug, Serialize)]
+enum Ext {
+    EmptyTuple(),
+    EmptyStruct {},
+    AllSkipped {
+        #[serde(skip_serializing_if = "Option::is_none")]
+        a: Option<u8>,
+        #[serde(skip_serializing_if = "Option::is_none")]
+        b: Option<u8>,
+    },
+    Unit,
+    Newtype(()),
+    Tuple(u8, ()),
+}
+#[derive(Debug, Serialize)]
+struct NoFields {}
+#[derive(Debug, Serialize)]
+struct TupleOfNothing();
+#[derive(Debug, Serialize)]
+struct Shapes {
+    v: ShapeV,
+    after: u8,
+}
+#[derive(Debug, Serialize)]
+#[serde(untagged)]
+enum ShapeV {
+    E(Ext),
+    Es(Vec<Ext>),
+    S(NoFields),
+    T(TupleOfNothing),
+    Seq(Vec<Vec<u8>>),
+    Map(BTreeMap<String, BTreeMap<String, u8>>),
+    Opt(Option<Option<u8>>),
+    U(()),
+}
+const N_SHAPES: usize = 14;
+fn shape(i: usize) -> Shapes {
+    let v = match i {
+        0 => ShapeV::E(Ext::EmptyTuple()),
+        1 => ShapeV::E(Ext::EmptyStruct {}),
+        2 => ShapeV::E(Ext::AllSkipped { a: None, b: None }),
+        3 => ShapeV::E(Ext::AllSkipped { a: None, b: Some(1) }),
+        4 => ShapeV::E(Ext::Unit),
+        5 => ShapeV::E(Ext::Newtype(())),
+        6 => ShapeV::E(Ext::Tuple(1, ())),
+        7 => ShapeV::Es(vec![Ext::EmptyTuple(), Ext::EmptyStruct {}, Ext::AllSkipped { a: None, b: None }]),
+        8 => ShapeV::S(NoFields {}),
+        9 => ShapeV::T(TupleOfNothing()),
+        10 => ShapeV::Seq(vec![vec![], vec![]]),
+        11 => ShapeV::Map(BTreeMap::from([("k".to_string(), BTreeMap::new())])),
+        12 => ShapeV::Opt(Some(None)),
+        _ => ShapeV::U(()),
+    };
+    Shapes { v, after: i as u8 }
+}
+
+fn shape_case(idx: u64, sink: &mut Sink<'_>) {
+    let n = N_SHAPES as u64;
+    let (form, i, j) = (idx / (n * n), (idx / n % n) as usize, (idx % n) as usize);
+    let case = || json!({"group": "empty-shapes", "form": form, "first": format!("{:?}", shape(i).v), "second": format!("{:?}", shape(j).v), "index": idx});
+    let wire = Wire::new(0, None);
+    let mut conn = wire.connection();
+    let mut m = Model::new();
+    sink.goal("payload-with-an-empty-variant-or-container");
+    for (step, k) in [i, j].into_iter().enumerate() {
+        let v = shape(k);
+        let (res, doc, flushes) = match form {
+            0 => {
+                let call = Call::new(&v);
+                (conn.enqueue_call(&call), serde_json::to_vec(&call).unwrap(), false)
+            }
+            1 => {
+                let r = Reply::new(Some(&v));
+                (complete(conn.send_reply(&r)), serde_json::to_vec(&r).unwrap(), true)
+            }
+            _ => (complete(conn.send_error(&v)), serde_json::to_vec(&v).unwrap(), true),
+        };
+        if let Err(e) = res {
+            sink.fail("outframe:valid-message-refused", format!("message {step} {:?}: {e:?}", v.v), case());
+            return;
+        }
+        m.accept(doc);
+        if let Err((c, d)) = m.check(&wire, flushes, &format!("message {step} {:?}", v.v)) {
+            sink.fail(c, d, case());
+            return;
+        }
+    }
+    if let Err(e) = complete(conn.flush()) {
+        sink.fail("outframe:flush-failed", format!("{e:?}"), case());
+        return;
+    }
+    if let Err((c, d)) = m.check(&wire, true, "final flush") {
+        sink.fail(c, d, case());
+        return;
+    }
+    if !Model::same(&m.accepted, &wire.written()) {
+        sink.fail("outframe:stream-differs", format!("whole stream `{}` is not two documents each followed by one NUL", show(&wire.written())), case());
+        return;
+    }
+    sink.steps(2);
+    sink.pass(H64::new().u(idx).get());
+}
+
 pub fn run(tier: Tier) -> i32 {
     let mut rep = Report::new("C02", tier.name());
-    rep.rule = "phase square: both message lengths from 1..=700 (all 490 000 pairs) x 4 operation forms (enqueue+enqueue+flush, send+send, enqueue+send, enqueue+flush+send), so every free-space value 0..=600 and every relation to the 256-byte step is met when the second message starts; phase odd-characters: every pair of payloads holding NUL / control / quote / backslash / DEL / non-ASCII / U+2028 as a char, inside a string and inside a map key x 3 operation forms (each message must carry exactly one NUL byte: its terminator); phase large (run by the main build, production limit): one flush handing over 4 KiB .. 1 MiB (one below, at, one above every power of two; quick: to 256 KiB) built in five ways (one large message, hundreds of small ones, mixtures), then a second flush and a small message; phases hist*: DFS over all operation histories up to the stated length over {enqueue_call, send_call, send_reply, send_error} x lengths chosen relative to the current free space (1, 2, 9, free-2..free+2, free+254..free+258) + flush + 4 unserializable messages (tuple map key; Serialize impl failing after 0/5/150 elements) through enqueue and through send. Outcomes are distinct (pending length, write count) sequences; states are (buffer length, pending length, writes) triples".into();
+    rep.rule = "phase square: both message lengths from 1..=700 (all 490 000 pairs) x 4 operation forms (enqueue+enqueue+flush, send+send, enqueue+send, enqueue+flush+send), so every free-space value 0..=600 and every relation to the 256-byte step is met when the second message starts; phase odd-characters: every pair of payloads holding NUL / control / quote / backslash / DEL / non-ASCII / U+2028 as a char, inside a string and inside a map key x 3 operation forms (each message must carry exactly one NUL byte: its terminator); phase empty-shapes: every pair of 14 payloads whose encoding has nothing between its brackets (enum variants with an empty or entirely skipped payload, field-less structs, empty and nested-empty containers, unit, Some(None)) x 3 operation forms; phase large (run by the main build, production limit): one flush handing over 4 KiB .. 1 MiB (one below, at, one above every power of two; quick: to 256 KiB) built in five ways (one large message, hundreds of small ones, mixtures), then a second flush and a small message; phases hist*: DFS over all operation histories up to the stated length over {enqueue_call, send_call, send_reply, send_error} x lengths chosen relative to the current free space (1, 2, 9, free-2..free+2, free+254..free+258) + flush + 4 unserializable messages (tuple map key; Serialize impl failing after 0/5/150 elements) through enqueue and through send. Outcomes are distinct (pending length, write count) sequences; states are (buffer length, pending length, writes) triples".into();
     rep.assumptions = vec![
         "serde_json::to_vec is the meaning of `the JSON document of a message`; a write that differs in bytes but splits at NUL into documents denoting the same values is accepted here (byte identity is C03)".into(),
         "the scripted WriteHalf accepts every write completely (write faults and partial writes are C09/C19)".into(),
@@ -674,6 +781,8 @@ pub fn run(tier: Tier) -> i32 {
     rep.add(sweep("square", 4 * SQ * SQ, &cfg, square_case));
     rep.require_goal("payload-contains-the-terminator-byte");
     rep.add(sweep("odd-characters", 3 * (ODD_CHARS.len() * ODD_CHARS.len()) as u64, &cfg, odd_case));
+    rep.require_goal("payload-with-an-empty-variant-or-container");
+    rep.add(sweep("empty-shapes", 3 * (N_SHAPES * N_SHAPES) as u64, &cfg, shape_case));
     let plan: Vec<(&str, usize, bool)> = match tier {
         Tier::Quick => vec![("hist3-full", 3, false), ("hist4-reduced", 4, true)],
         Tier::Thorough => vec![("hist4-full", 4, false), ("hist5-reduced", 5, true)],
@@ -705,7 +814,9 @@ pub fn replay(v: &Value) -> Replayed {
     if v["kind"] == "sweep" {
         let idx = v["index"].as_u64().unwrap_or(0);
         let cfg = Config { threads: 1, ..Default::default() };
-        let st = if v["case"]["group"] == "odd-characters" { xplore::sweep_one("odd-characters", idx, &cfg, odd_case) } else { xplore::sweep_one("square", idx, &cfg, square_case) };
+        let st = if v["case"]["group"] == "empty-shapes" {
+            xplore::sweep_one("empty-shapes", v["case"]["index"].as_u64().unwrap_or(idx), &cfg, shape_case)
+        } else if v["case"]["group"] == "odd-characters" { xplore::sweep_one("odd-characters", idx, &cfg, odd_case) } else { xplore::sweep_one("square", idx, &cfg, square_case) };
         return match st.violations.into_iter().next() {
             Some((class, rec)) => Replayed::Fail { trace: vec![format!("sweep case {}", v["case"])], class, detail: rec.detail },
             None => Replayed::Pass(vec![format!("sweep case {}", v["case"])]),
